@@ -3,8 +3,8 @@ CONSTANTS
   Versions <- VersionsAll
   FullVersions <- VersionsAll
   Family = "pdu"
-  FullOffsets <- OffAll
-  LiteOffsets <- OffNone
+  FullOffsets <- OffLow
+  LiteOffsets <- OffHigh
   AllOnlyOffsets <- OffNone
 INVARIANTS TypeOK PExact PIdempotent PCore PIdentity PModule PSanity Emit
 CHECK_DEADLOCK FALSE
